@@ -41,6 +41,11 @@ def run(tier, seed):
         import random
         beh = random.Random(seed).sample(beh, 60000)
     jobs = [(b, scenario(b)) for b in beh]
+    # one long chain: far more consecutive failures than any double-precision exponent can take
+    n_long = 1100
+    long_b = {"w": {"min": 1, "max": 60}, "names": [["connecting", "connect_fail"]] * n_long,
+              "hist": [{"outcome": "connect_fail", "draw": [1, 2], "k": i + 1, "delay": [0, 1], "stop": i == n_long - 1} for i in range(n_long)]}
+    jobs.append((long_b, scenario(long_b)))
     logs = pipeline.execute([j[1] for j in jobs])
     r.evaluations = len(jobs)
     r.traces = len(jobs)
